@@ -307,6 +307,11 @@ func Generate(r *runner.Rand, sh Shape) (*Case, error) {
 		dt = 1<<32 + uint64(r.Intn(1000)) // forces tfdt version 1
 	}
 	optimize := r.Chance(1, 3)
+	constSize := -1 // audio: every frame of the track has this size (as AC-3 frames have)
+	if c.Media == "audio" && r.Chance(1, 6) {
+		constSize = 16*r.PickInt(0, 1, 2, 5, 20) + r.Range(1, 15)
+		c.Traits = append(c.Traits, "constant-frame-size")
+	}
 	var seg *mp4.MediaSegment
 	fragsInSeg := 0
 	flushSeg := func() error {
@@ -331,6 +336,9 @@ func Generate(r *runner.Rand, sh Shape) (*Case, error) {
 				seg = mp4.NewMediaSegment()
 			} else {
 				seg = mp4.NewMediaSegmentWithoutStyp()
+			}
+			if optimize {
+				seg.EncOptimize = mp4.OptimizeTrun // MediaSegment.Encode overwrites the fragments' own setting
 			}
 			fragsInSeg = 0
 		}
@@ -360,6 +368,9 @@ func Generate(r *runner.Rand, sh Shape) (*Case, error) {
 				size := 16*k + r.Intn(16)
 				if r.Chance(1, 40) {
 					size = 0
+				}
+				if constSize >= 0 {
+					size = constSize
 				}
 				s.Data = r.Bytes(size)
 				s.Flags = 0x02000000
